@@ -63,33 +63,27 @@ Lemma to_signed8_spec : forall z,
   exists k, to_signed 8 z = z + k * 256 /\ - 128 <= to_signed 8 z < 128.
 Proof. intro z. destruct (to_signed_spec 8 z) as [k H]; [lia|]. exists k. exact H. Qed.
 
-(* introduce the k-form of every wrap/to_signed occurrence in the goal *)
+(* introduce the k-form of every wrap/to_signed occurrence in the goal,
+   innermost occurrences first *)
+Ltac inner_free z :=
+  lazymatch z with
+  | context [wrap _ _] => fail
+  | context [to_signed _ _] => fail
+  | _ => idtac
+  end.
+
+Ltac spec_with lem t :=
+  let k := fresh "k" in let E := fresh "E" in let R := fresh "R" in
+  destruct lem as [k [E R]]; generalize dependent t; intros.
+
 Ltac spec_one :=
   match goal with
-  | |- context [to_signed 64 ?z] =>
-      let k := fresh "k" in let E := fresh "E" in let R := fresh "R" in
-      destruct (to_signed64_spec z) as [k [E R]];
-      generalize dependent (to_signed 64 z); intros
-  | |- context [wrap 64 ?z] =>
-      let k := fresh "k" in let E := fresh "E" in let R := fresh "R" in
-      destruct (wrap64_spec z) as [k [E R]];
-      generalize dependent (wrap 64 z); intros
-  | |- context [to_signed 128 ?z] =>
-      let k := fresh "k" in let E := fresh "E" in let R := fresh "R" in
-      destruct (to_signed128_spec z) as [k [E R]];
-      generalize dependent (to_signed 128 z); intros
-  | |- context [wrap 128 ?z] =>
-      let k := fresh "k" in let E := fresh "E" in let R := fresh "R" in
-      destruct (wrap128_spec z) as [k [E R]];
-      generalize dependent (wrap 128 z); intros
-  | |- context [to_signed 8 ?z] =>
-      let k := fresh "k" in let E := fresh "E" in let R := fresh "R" in
-      destruct (to_signed8_spec z) as [k [E R]];
-      generalize dependent (to_signed 8 z); intros
-  | |- context [wrap 8 ?z] =>
-      let k := fresh "k" in let E := fresh "E" in let R := fresh "R" in
-      destruct (wrap8_spec z) as [k [E R]];
-      generalize dependent (wrap 8 z); intros
+  | |- context [to_signed 64 ?z] => inner_free z; spec_with (to_signed64_spec z) (to_signed 64 z)
+  | |- context [wrap 64 ?z] => inner_free z; spec_with (wrap64_spec z) (wrap 64 z)
+  | |- context [to_signed 128 ?z] => inner_free z; spec_with (to_signed128_spec z) (to_signed 128 z)
+  | |- context [wrap 128 ?z] => inner_free z; spec_with (wrap128_spec z) (wrap 128 z)
+  | |- context [to_signed 8 ?z] => inner_free z; spec_with (to_signed8_spec z) (to_signed 8 z)
+  | |- context [wrap 8 ?z] => inner_free z; spec_with (wrap8_spec z) (wrap 8 z)
   end.
 
 Ltac pows :=
@@ -106,7 +100,7 @@ Ltac unfold_ranges :=
   unfold in_u64, in_i64, in_u32, in_i8, in_u128, in_i128, sat_i64, sat_i8, sat_i128,
          clampZ, i64_min, i64_max, i8_min, i8_max, i128_min, i128_max, u64_max in *.
 
-Ltac wsolve := unfold_ranges; pows; repeat spec_one; lia.
+Ltac wsolve := unfold_ranges; pows; repeat spec_one; intros; lia.
 
 (* ------------------------------------------------------------------ *)
 (* NtpTimestamp                                                        *)
